@@ -2,9 +2,17 @@ package engines
 
 import (
 	"bytes"
+	"context"
 	"crypto/sha256"
 	"encoding/hex"
+	"encoding/json"
 	"fmt"
+	chainapp "github.com/EscanBE/evermint/v12/app"
+	evmtypes "github.com/EscanBE/evermint/v12/x/evm/types"
+	sdkdb "github.com/cosmos/cosmos-db"
+	simtestutil "github.com/cosmos/cosmos-sdk/testutil/sims"
+	"github.com/cosmos/gogoproto/proto"
+	"github.com/ethereum/go-ethereum/common/hexutil"
 	"math/big"
 	"os"
 	"strconv"
@@ -49,9 +57,10 @@ import (
 // that the history touches, so that a wall-clock dependent guard would flip.
 
 type twin struct {
-	capp itutiltypes.ChainApp
-	app  *baseapp.BaseApp
-	name string
+	capp      itutiltypes.ChainApp
+	app       *baseapp.BaseApp
+	name      string
+	nodeLocal func(h int64, txs [][]byte)
 }
 
 type reFix struct {
@@ -60,6 +69,8 @@ type reFix struct {
 	erc20A, erc20B                         common.Address
 	vest                                   common.Address
 }
+
+var reexecLateDenoms = []string{"ufour", "ufive", "usix", "useven"}
 
 func reexecT0() time.Time { return time.Unix(1_750_000_000, 0).UTC() }
 
@@ -107,6 +118,17 @@ func (tw *twin) setup(t *testing.T, s *itutil.ChainIntegrationTestSuite, vestEnd
 	f.runner = deploy("runner", codeRunner)
 	fund(f.runner, p.EvmDenom, 1_000_000)
 	fund(f.runner, "utwo", 1_000_000)
+	for _, d := range reexecLateDenoms { // denominations whose ERC-20 precompile is deployed later, by a transaction
+		fund(f.runner, d, 1_000_000)
+		for _, w := range s.WalletAccounts[:5] {
+			fund(w.GetEthAddress(), d, 10_000)
+		}
+	}
+	{
+		cp := ck.GetParams(ctx)
+		cp.WhitelistedDeployers = []string{s.WalletAccounts[0].GetCosmosAddress().String()}
+		require.NoError(t, ck.SetParams(ctx, cp))
+	}
 	for i := 0; i < 120; i++ {
 		a := deploy(fmt.Sprintf("sd%d", i), codeSD)
 		fund(a, p.EvmDenom, int64(10+i))
@@ -139,6 +161,9 @@ func (tw *twin) finalize(t *testing.T, s *itutil.ChainIntegrationTestSuite, h in
 	hdr := tw.header(s, h)
 	res, err := tw.app.FinalizeBlock(&abci.RequestFinalizeBlock{Height: h, Txs: txs, Hash: blockHashOf(h), Time: hdr.Time, ProposerAddress: hdr.ProposerAddress})
 	require.NoError(t, err)
+	if tw.nodeLocal != nil {
+		tw.nodeLocal(h, txs) // traffic only this node sees: queries and mempool checks between FinalizeBlock and Commit
+	}
 	_, err = tw.app.Commit()
 	require.NoError(t, err)
 	return res, tw.app.LastCommitID().Hash
@@ -162,12 +187,37 @@ func TestEngineReexec(t *testing.T) {
 	require.Equal(t, fx.erc20B, fxB.erc20B)
 
 	c := &chain{t: t, s: s, evmDenom: itutil.IntegrationTestChain1.BaseDenom, chainID: big.NewInt(itutil.IntegrationTestChain1.EvmChainId)}
+	// instance B additionally serves node-local traffic (JSON-RPC style queries against every known precompile and
+	// mempool checks) between FinalizeBlock and Commit: none of it may influence what consensus computes
+	B.nodeLocal = func(h int64, txs [][]byte) {
+		from := s.WalletAccounts[1].GetEthAddress()
+		targets := []common.Address{fx.erc20A, fx.erc20B, cpctypes.CpcStakingFixedAddress}
+		for i := 0; i < 12; i++ {
+			targets = append(targets, crypto.CreateAddress(cpctypes.CpcModuleAddress, uint64(i)))
+		}
+		for _, to := range targets {
+			to := to
+			data := append(append([]byte{}, cpcabi.Erc20CpcInfo.ABI.Methods["balanceOf"].ID...), common.LeftPadBytes(from.Bytes(), 32)...)
+			args, _ := json.Marshal(evmtypes.TransactionArgs{From: &from, To: &to, Data: (*hexutil.Bytes)(&data)})
+			bz, _ := proto.Marshal(&evmtypes.EthCallRequest{Args: args, GasCap: 1_000_000})
+			_, _ = B.app.Query(context.Background(), &abci.RequestQuery{Path: "/ethermint.evm.v1.Query/EthCall", Data: bz, Height: h - 1})
+		}
+		for _, tx := range txs {
+			_, _ = B.app.CheckTx(&abci.RequestCheckTx{Tx: tx, Type: abci.CheckTxType_New})
+		}
+	}
 	ws := s.WalletAccounts[:5]
 	nonces := map[int]uint64{}
 	txCfg := s.EncodingConfig.TxConfig
+	var lateTokens []common.Address
+	lateNext := 0
+	var cosmosMsgs func(ctx sdk.Context, from *itutiltypes.TestAccount, msgs []sdk.Msg, seq uint64, gas uint64, fee *big.Int) []byte
 	cosmosSend := func(ctx sdk.Context, from *itutiltypes.TestAccount, to sdk.AccAddress, amt int64, seq uint64, gas uint64, fee *big.Int) []byte {
+		return cosmosMsgs(ctx, from, []sdk.Msg{&banktypes.MsgSend{FromAddress: from.GetCosmosAddress().String(), ToAddress: to.String(), Amount: sdk.NewCoins(sdk.NewInt64Coin(c.evmDenom, amt))}}, seq, gas, fee)
+	}
+	cosmosMsgs = func(ctx sdk.Context, from *itutiltypes.TestAccount, msgs []sdk.Msg, seq uint64, gas uint64, fee *big.Int) []byte {
 		b := txCfg.NewTxBuilder()
-		require.NoError(t, b.SetMsgs(&banktypes.MsgSend{FromAddress: from.GetCosmosAddress().String(), ToAddress: to.String(), Amount: sdk.NewCoins(sdk.NewInt64Coin(c.evmDenom, amt))}))
+		require.NoError(t, b.SetMsgs(msgs...))
 		b.SetGasLimit(gas)
 		b.SetFeeAmount(sdk.NewCoins(sdk.NewCoin(c.evmDenom, sdkmath.NewIntFromBigInt(fee))))
 		acc := A.capp.AccountKeeper().GetAccount(ctx, from.GetCosmosAddress())
@@ -237,6 +287,10 @@ func TestEngineReexec(t *testing.T) {
 					a.to, a.gas, kind = &fx.vest, 30_000, "touch-vesting"
 				case k < 88:
 					a.to, a.data, a.gas, kind = nil, initCode(codeLogger), 250_000, "create"
+				case k < 90 && len(lateTokens) > 0: // a precompile that a transaction of this history deployed
+					tok := lateTokens[r.Intn(len(lateTokens))]
+					tr := append(append([]byte{}, cpcabi.Erc20CpcInfo.ABI.Methods["transfer"].ID...), mustPack(cpcabi.Erc20CpcInfo.ABI.Methods["transfer"].Inputs.Pack(ws[r.Intn(len(ws))].GetEthAddress(), big.NewInt(int64(1+r.Intn(20)))))...)
+					a.to, a.data, a.gas, kind = &tok, tr, 200_000, "erc20-late-transfer"
 				case k < 92:
 					a.nonce += 2
 					to := ws[0].GetEthAddress()
@@ -256,8 +310,27 @@ func TestEngineReexec(t *testing.T) {
 				}
 			}
 		}
+		if h > 1 && lateNext < len(reexecLateDenoms) && (h%4 == 2 || r.Chance(1, 6)) { // deploy the next ERC-20 precompile by transaction
+			ctx := A.app.NewUncachedContext(false, A.header(s, h-1)).WithChainID(itutil.IntegrationTestChain1.CosmosChainId)
+			price := new(big.Int).Add(A.capp.FeeMarketKeeper().GetBaseFee(ctx).BigInt(), big.NewInt(7))
+			d := reexecLateDenoms[lateNext]
+			msg := &cpctypes.MsgDeployErc20ContractRequest{Authority: ws[0].GetCosmosAddress().String(), Name: "late-" + d, Symbol: strings.ToUpper(d[1:]), Decimals: 6, MinDenom: d}
+			txs = append(txs, cosmosMsgs(ctx, ws[0], []sdk.Msg{msg}, nonces[0], 600_000, new(big.Int).Mul(price, big.NewInt(600_000))))
+			kinds = append(kinds, "cpc-deploy")
+			nonces[0]++
+			lateNext++
+		}
 		resA, hashA := A.finalize(t, s, h, txs)
 		resB, hashB := B.finalize(t, s, h, txs)
+		{ // addresses of the precompiles deployed so far, for the following blocks
+			ctx := A.app.NewUncachedContext(false, A.header(s, h)).WithChainID(itutil.IntegrationTestChain1.CosmosChainId)
+			lateTokens = lateTokens[:0]
+			for _, d := range reexecLateDenoms {
+				if a := A.capp.CpcKeeper().GetErc20CustomPrecompiledContractAddressByMinDenom(ctx, d); a != nil {
+					lateTokens = append(lateTokens, *a)
+				}
+			}
+		}
 		// Log / Info / Codespace texts are not part of consensus (CometBFT hashes code, data, gas wanted, gas used);
 		// a recovered panic puts a stack trace with addresses into Log.  They are compared separately below.
 		strip := func(r *abci.ResponseFinalizeBlock) *abci.ResponseFinalizeBlock {
@@ -301,6 +374,84 @@ func TestEngineReexec(t *testing.T) {
 				}
 			}
 			p.Oracle("C01-results", "block %d: ResponseFinalizeBlock differs between two executions of the same history: %s", h, where)
+		}
+	}
+
+	// ---- restart in the middle of a history -------------------------------------------------------------------
+	// Node R1 is built on a database this test can reach (InitChain from A's exported state), executes a few blocks,
+	// then R2 = a fresh application instance opened on a byte-for-byte copy of R1's database ("the same node after a
+	// restart", or a node that state-synced).  Both execute the same further blocks: results and app hashes must agree.
+	{
+		appA := A.capp.IbcTestingApp().(*chainapp.Evermint)
+		exported, err := appA.ExportAppStateAndValidators(false, nil, nil)
+		require.NoError(t, err)
+		chainID := itutil.IntegrationTestChain1.CosmosChainId
+		newApp := func(db sdkdb.DB) *chainapp.Evermint {
+			return chainapp.NewEvermint(log.NewNopLogger(), db, nil, true, map[int64]bool{}, chainapp.DefaultNodeHome, 0, s.EncodingConfig,
+				simtestutil.NewAppOptionsWithFlagHome(chainapp.DefaultNodeHome), baseapp.SetChainID(chainID))
+		}
+		dbR := sdkdb.NewMemDB()
+		R1 := newApp(dbR)
+		cp := exported.ConsensusParams
+		t0 := reexecT0().Add(1000 * time.Hour)
+		_, err = R1.InitChain(&abci.RequestInitChain{ChainId: chainID, ConsensusParams: &cp, Validators: []abci.ValidatorUpdate{}, AppStateBytes: exported.AppState, InitialHeight: exported.Height, Time: t0})
+		require.NoError(t, err)
+		proposer := s.ValidatorAccounts.Number(1).GetConsensusAddress().Bytes()
+		block := func(app *chainapp.Evermint, h int64, txs [][]byte) (*abci.ResponseFinalizeBlock, []byte) {
+			res, err := app.FinalizeBlock(&abci.RequestFinalizeBlock{Height: h, Txs: txs, Hash: blockHashOf(h), Time: t0.Add(time.Duration(h) * 5 * time.Second), ProposerAddress: proposer})
+			require.NoError(t, err)
+			_, err = app.Commit()
+			require.NoError(t, err)
+			return res, app.LastCommitID().Hash
+		}
+		mkTxs := func(app *chainapp.Evermint, h int64) [][]byte {
+			ctx := app.NewUncachedContext(false, tmproto.Header{ChainID: chainID, Height: h - 1, Time: t0}).WithChainID(chainID)
+			var txs [][]byte
+			if app.LastBlockHeight() == 0 || h == exported.Height {
+				return txs // the imported state is committed by the first block
+			}
+			price := new(big.Int).Add(app.FeeMarketKeeper.GetBaseFee(ctx).BigInt(), big.NewInt(int64(1+r.Intn(1000))))
+			for i := 0; i < r.Intn(3); i++ {
+				w := ws[i]
+				acc := app.AccountKeeper.GetAccount(ctx, w.GetCosmosAddress())
+				if acc == nil {
+					continue
+				}
+				to := ws[(i+1)%len(ws)].GetEthAddress()
+				bz, _ := c.buildEthTx(ethTxArgs{from: w, typ: 2, nonce: acc.GetSequence(), to: &to, value: big.NewInt(int64(1 + r.Intn(50))), gas: 21000, feeCap: price, tip: big.NewInt(1)})
+				txs = append(txs, bz)
+			}
+			return txs
+		}
+		h := exported.Height
+		for i, k := 0, 2+r.Intn(3); i < k; i++ {
+			block(R1, h, mkTxs(R1, h))
+			h++
+		}
+		clone := sdkdb.NewMemDB()
+		it, err := dbR.Iterator(nil, nil)
+		require.NoError(t, err)
+		for ; it.Valid(); it.Next() {
+			require.NoError(t, clone.Set(append([]byte{}, it.Key()...), append([]byte{}, it.Value()...)))
+		}
+		_ = it.Close()
+		R2 := newApp(clone)
+		if R1.LastBlockHeight() != R2.LastBlockHeight() || !bytes.Equal(R1.LastCommitID().Hash, R2.LastCommitID().Hash) {
+			p.Oracle("C01-restart", "an instance opened on a copy of the database does not start from the same state (height %d / %d)", R1.LastBlockHeight(), R2.LastBlockHeight())
+		}
+		for i := 0; i < 4; i++ {
+			txs := mkTxs(R1, h)
+			res1, hash1 := block(R1, h, txs)
+			res2, hash2 := block(R2, h, txs)
+			b1, _ := res1.Marshal()
+			b2, _ := res2.Marshal()
+			p.Emit(fmt.Sprintf("blk restart h=%d n=%d", h, len(txs)), fmt.Sprintf("apphash=%s", hex.EncodeToString(hash1)))
+			p.Count("restart-block")
+			if !bytes.Equal(hash1, hash2) || !bytes.Equal(b1, b2) {
+				p.Oracle("C01-restart", "block %d: the instance restarted on the same database computes a different app hash or result than the one that kept running (%x vs %x, results equal: %v)", h, hash1, hash2, bytes.Equal(b1, b2))
+				break
+			}
+			h++
 		}
 	}
 }
